@@ -4,10 +4,10 @@ From Coq Require Import Extraction ExtrOcamlBasic.
 From Coq Require Import ZArith List.
 From GV Require Import model.Arith model.Decimal model.NumFn.
 Extraction "extract/numfn_model.ml"
-  NumFn.impl_gcd NumFn.spec_gcd NumFn.impl_lcm NumFn.spec_lcm
-  NumFn.impl_factorial NumFn.spec_factorial_exec
+  NumFn.impl_gcd_src NumFn.spec_gcd NumFn.impl_lcm_src NumFn.spec_lcm
+  NumFn.impl_factorial_src NumFn.spec_factorial_exec
   NumFn.impl_bitand NumFn.spec_bitand NumFn.impl_bitor NumFn.spec_bitor NumFn.impl_xor NumFn.spec_xor
-  NumFn.impl_bitnot NumFn.spec_bitnot NumFn.impl_shl NumFn.spec_shl_exec NumFn.impl_shr NumFn.spec_shr_exec
-  NumFn.impl_round NumFn.spec_round
+  NumFn.impl_bitnot NumFn.spec_bitnot NumFn.impl_shl NumFn.spec_shl_exec NumFn.impl_shr_src NumFn.spec_shr_exec
+  NumFn.impl_round_src NumFn.spec_round
   NumFn.impl_int_fn NumFn.spec_int_fn NumFn.impl_dec_fn NumFn.spec_dec_fn NumFn.fres_eqb
   NumFn.spec_cmp Arith.in_range.
